@@ -68,6 +68,7 @@ func c18Gen(t *rapid.T) qScenario {
 	if rapid.IntRange(0, 3).Draw(t, "utf8") == 0 {
 		m.UTF8 = true
 	}
+	m.Helo = rapid.SampledFrom([]string{"", "", "", "mail.client.example", "[192.0.2.7]", "xn--0.client.example", "клиент.example", "not a host name"}).Draw(t, "helo")
 	for a := 0; a < sc.MaxTries; a++ {
 		p := qPlan{}
 		if rapid.IntRange(0, 8).Draw(t, "startfail") == 0 {
